@@ -540,6 +540,33 @@ class Gen:
                 for q in sorted(rdown(r0)):
                     emit_queries(q, s1, pq1, nm0, pq1)
             emit_queries(r0, s0, pq, nm0, pq)
+        if rnd.random() < P.get("equal_pair", 0.3):
+            # two (three) EQUAL but distinct subscribers under one key, an unequal one between them; then `unsubscribe` is given one
+            # of those very objects: every entry equal to it goes, the unequal one stays
+            r0 = rnd.randrange(nr)
+            req0 = [rnd.choice([None] + specs_all) for _ in range(rnd.choice([0, 1, 1, 2]))]
+            p0 = rnd.choice(ifaces)
+            pp0 = "N" if rnd.random() < 0.25 else str(p0)
+            e0, e1 = rnd.sample([1, 2, 3], 2)
+            ids0 = []
+            for e_ in [e0, e1, e0] + ([e0] if rnd.random() < 0.4 else []):
+                self.vid += 1
+                ids0.append((self.vid, e_))
+                line = "sub|%d|%s|%s|%d %d" % (r0, sreq(req0), pp0, self.vid, e_)
+                L.append(line)
+                flat.apply(line.split("|"))
+            live.append((tuple(req0), p0))
+            s0, pq = affected(req0, p0)
+            for q in sorted(rdown(r0)):
+                emit_queries(q, s0, pq, "", None if pp0 == "N" else pq)
+            v0 = rnd.choice([v for v in ids0 if v[1] == e0])
+            line = "unsub|%d|%s|%s|%d %d" % (r0, sreq(req0), pp0, v0[0], v0[1])
+            L.append(line)
+            flat.apply(line.split("|"))
+            for q in sorted(rdown(r0)):
+                emit_queries(q, s0, pq, "", None if pp0 == "N" else pq)
+            if "book" in P["queries"]:
+                L.append("allsub|%d" % r0)
         if rnd.random() < P.get("arity_hole", 0.3):
             # registrations at several arities in one registry; then the LAST registration (or subscription) of a lower
             # arity goes away: those of the higher arities stay where they are
@@ -685,6 +712,8 @@ class Gen:
             elif k == "unsub":
                 pp = p if rnd.random() < 0.8 else None
                 vs = "N" if rnd.random() < 0.4 else "0 %d" % rnd.randint(1, 3)
+                if pool and rnd.random() < 0.35:
+                    vs = "%d %d" % rnd.choice(pool)          # one of the very objects subscribed: every EQUAL entry under the key goes
                 line = "unsub|%d|%s|%s|%s" % (r, sreq(req), "N" if pp is None else pp, vs)
                 hot = hot[:4] + (pp,)
             elif k == "rbases":
